@@ -345,4 +345,350 @@ theorem valClose_exact_self_aux (a : EVal α) (hv : a.valid = true) (hf : a.fini
 theorem valClose_exact_self (a : EVal α) (hv : a.valid = true) (hf : a.finite = true) :
     valClose (exact : Tol α) a a = true := (valClose_exact_self_aux a hv hf).1
 
+/-! ### the generic loop on comparators that cannot raise -/
+
+/-- a member present on both sides whose comparator answers `b` -/
+def mkM (n : String) (b : Bool) : Member := { name := n, cmp := fun _ => .ok b }
+
+theorem membersLoop_mk (l : List (String × Bool)) :
+    membersLoop (l.map fun p => mkM p.1 p.2) = .ok ((l.filter fun p => !p.2).map (·.1)) := by
+  induction l with
+  | nil => rfl
+  | cons p l ih =>
+    obtain ⟨n, b⟩ := p
+    simp only [List.map_cons, membersLoop]
+    rw [ih]
+    cases b <;> simp [mkM]
+
+/-- names of the members whose comparator answered `False` -/
+def failing (l : List (String × Bool)) : List String := (l.filter fun p => !p.2).map (·.1)
+
+theorem failing_nil_iff (l : List (String × Bool)) : failing l = [] ↔ ∀ p ∈ l, p.2 = true := by
+  induction l with
+  | nil => simp [failing]
+  | cons p l ih =>
+    obtain ⟨n, b⟩ := p
+    cases b <;> simp_all [failing]
+
+/-! ### decision matrices -/
+
+/-- the members of `DecisionMatrix.diff` with the answer of their comparator -/
+def dmFlags (t : Tol α) (cd : Bool) (d e : DM α) : List (String × Bool) :=
+  [ ("shape", decide (d.shape = e.shape)),
+    ("criteria", decide (d.shape = e.shape) && decide (d.criteria = e.criteria)),
+    ("alternatives", decide (d.shape = e.shape) && decide (d.alternatives = e.alternatives)),
+    ("objectives", decide (d.shape = e.shape) && decide (d.objectives = e.objectives)),
+    ("weights", decide (d.shape = e.shape) && cellsClose t d.weights e.weights),
+    ("matrix", decide (d.shape = e.shape) && dataClose t d.matrix e.matrix) ] ++
+  (if cd then [("dtypes", decide (d.shape = e.shape) && decide (d.dtypes = e.dtypes))] else [])
+
+theorem dmMembers_eq (t : Tol α) (cd : Bool) (d e : DM α) :
+    dmMembers t cd (decide (d.shape = e.shape)) d e = (dmFlags t cd d e).map fun p => mkM p.1 p.2 := by
+  cases cd <;> rfl
+
+theorem dmDiff_dm (t : Tol α) (cd : Bool) (d e : DM α) :
+    dmDiff t cd d (.dm e) =
+      .ok (if d.oid = e.oid then ⟨false, []⟩ else ⟨false, failing (dmFlags t cd d e)⟩) := by
+  simp only [dmDiff, diffGeneric, dmMembers_eq, membersLoop_mk, failing]
+  by_cases h : d.oid = e.oid <;> simp [h]
+
+theorem diffGeneric_types (i : Bool) (lt rt : PyType) (h : lt ≠ rt) (ms : List Member) :
+    diffGeneric i lt rt ms = .ok ⟨true, []⟩ := by
+  simp [diffGeneric, h]
+
+/-! ### results -/
+
+def resFlags (t : Tol α) (r s : Res α) : List (String × Bool) :=
+  [ ("method", decide (r.method = s.method)),
+    ("alternatives", decide (r.alternatives = s.alternatives)),
+    ("values", arrClose t r.values s.values),
+    ("extra_", valClose t r.extra s.extra) ]
+
+theorem resMembers_eq (t : Tol α) (r s : Res α) :
+    resMembers t r s = (resFlags t r s).map fun p => mkM p.1 p.2 := rfl
+
+theorem Res.pyType_eq_iff (r s : Res α) : r.pyType = s.pyType ↔ r.kind = s.kind := by
+  cases hr : r.kind <;> cases hs : s.kind <;> simp [Res.pyType, Obj.pyType, hr, hs]
+
+theorem resDiff_res (t : Tol α) (r s : Res α) :
+    resDiff t r (.res s) =
+      .ok (if r.kind ≠ s.kind then ⟨true, []⟩
+           else if r.oid = s.oid then ⟨false, []⟩ else ⟨false, failing (resFlags t r s)⟩) := by
+  simp only [resDiff, diffGeneric, resMembers_eq, membersLoop_mk, failing]
+  by_cases hk : r.kind = s.kind
+  · have : r.pyType = s.pyType := (Res.pyType_eq_iff r s).mpr hk
+    by_cases h : r.oid = s.oid <;> simp [h, hk, this]
+  · have : r.pyType ≠ s.pyType := fun h => hk ((Res.pyType_eq_iff r s).mp h)
+    simp [hk, this]
+
+theorem resDiff_total (t : Tol α) (r : Res α) (y : Obj α) : ∃ d, resDiff t r y = .ok d := by
+  cases y with
+  | res s => exact ⟨_, resDiff_res t r s⟩
+  | _ => simp only [resDiff, diffGeneric, membersLoop]; split <;> exact ⟨_, rfl⟩
+
+/-- a result has no differences with another one (tolerance `t`) -/
+def resSame (t : Tol α) (r s : Res α) : Bool :=
+  decide (r.kind = s.kind) && (decide (r.oid = s.oid) || (resFlags t r s).all (·.2))
+
+theorem resDiff_hasDifferences (t : Tol α) (r s : Res α) :
+    ∃ d, resDiff t r (.res s) = .ok d ∧ d.hasDifferences = !resSame t r s := by
+  refine ⟨_, resDiff_res t r s, ?_⟩
+  by_cases hk : r.kind = s.kind
+  · by_cases h : r.oid = s.oid
+    · simp [hk, h, resSame, Difference.hasDifferences]
+    · simp only [hk, h, resSame, Difference.hasDifferences, ne_eq, not_true_eq_false, if_false,
+        Bool.false_or, decide_true, Bool.true_and, decide_false]
+      cases hf : (resFlags t r s).all (·.2)
+      · have : failing (resFlags t r s) ≠ [] := by
+          intro h0
+          rw [failing_nil_iff] at h0
+          have : (resFlags t r s).all (·.2) = true := List.all_eq_true.mpr (by simpa using h0)
+          simp [hf] at this
+        cases hfl : failing (resFlags t r s) with
+        | nil => exact absurd hfl this
+        | cons _ _ => simp
+      · have : failing (resFlags t r s) = [] := by
+          rw [failing_nil_iff]; simpa using List.all_eq_true.mp hf
+        simp [this]
+  · simp [hk, resSame, Difference.hasDifferences]
+
+/-! ### rank comparators -/
+
+theorem ranksClose_eq (t : Tol α) (as bs : List (String × Res α)) :
+    ranksCloseWith (resDiff t) as bs =
+      .ok (decide (as.length = bs.length) &&
+        (List.zip as bs).all fun p => decide (p.1.1 = p.2.1) && resSame t p.1.2 p.2.2) := by
+  induction as generalizing bs with
+  | nil => cases bs <;> simp [ranksCloseWith]
+  | cons a as ih =>
+    cases bs with
+    | nil => simp [ranksCloseWith]
+    | cons b bs =>
+      obtain ⟨n, r⟩ := a
+      obtain ⟨m, s⟩ := b
+      obtain ⟨d, hd, hh⟩ := resDiff_hasDifferences t r s
+      simp only [ranksCloseWith, hd, hh, ih, List.length_cons, List.zip_cons_cons, List.all_cons]
+      by_cases hl : as.length = bs.length
+      · by_cases hn : n = m
+        · cases hs : resSame t r s <;> simp [hl, hn]
+        · simp [hl, hn]
+      · simp [hl]
+
+theorem rcmpDiff_rcmp (t : Tol α) (c e : Rcmp α) :
+    rcmpDiff t c (.rcmp e) =
+      .ok (if c.oid = e.oid then ⟨false, []⟩
+           else ⟨false, failing [("ranks", decide (c.ranks.length = e.ranks.length) &&
+              (List.zip c.ranks e.ranks).all fun p => decide (p.1.1 = p.2.1) && resSame t p.1.2 p.2.2)]⟩) := by
+  simp only [rcmpDiff, rcmpDiffWith, diffGeneric, membersLoop, ranksClose_eq]
+  generalize (decide (c.ranks.length = e.ranks.length) &&
+    (List.zip c.ranks e.ranks).all fun p => decide (p.1.1 = p.2.1) && resSame t p.1.2 p.2.2) = X
+  by_cases h : c.oid = e.oid
+  · simp [h]
+  · cases X <;> simp [h, failing]
+
+/-! ### totality, different types -/
+
+theorem Res.pyType_ne_dm (r : Res α) : r.pyType ≠ .dm := by
+  cases h : r.kind <;> simp [Res.pyType, Obj.pyType, h]
+
+theorem Res.pyType_ne_rcmp (r : Res α) : r.pyType ≠ .rcmp := by
+  cases h : r.kind <;> simp [Res.pyType, Obj.pyType, h]
+
+theorem Res.pyType_ne_other (r : Res α) (n : String) : r.pyType ≠ .other n := by
+  cases h : r.kind <;> simp [Res.pyType, Obj.pyType, h]
+
+theorem diff_total' (t : Tol α) (cd : Bool) (x y : Obj α) : ∃ d, diff t cd x y = .ok d := by
+  cases x with
+  | dm d =>
+    cases y with
+    | dm e => exact ⟨_, dmDiff_dm t cd d e⟩
+    | _ => simp only [diff, dmDiff, diffGeneric, membersLoop]; split <;> exact ⟨_, rfl⟩
+  | res r => exact resDiff_total t r y
+  | rcmp c =>
+    cases y with
+    | rcmp e => exact ⟨_, rcmpDiff_rcmp t c e⟩
+    | _ => simp only [diff, rcmpDiff, rcmpDiffWith, diffGeneric, membersLoop]; split <;> exact ⟨_, rfl⟩
+  | other i n => simp only [diff, diffGeneric, membersLoop]; split <;> exact ⟨_, rfl⟩
+
+/-- objects of different Python types: `different_types`, no member looked at -/
+theorem diff_of_types_ne (t : Tol α) (cd : Bool) (x y : Obj α) (h : x.pyType ≠ y.pyType) :
+    diff t cd x y = .ok ⟨true, []⟩ := by
+  cases x with
+  | dm d =>
+    cases y with
+    | dm e => simp [Obj.pyType] at h
+    | _ => simp only [diff, dmDiff]; exact diffGeneric_types _ _ _ h _
+  | res r =>
+    cases y with
+    | res s => simp only [diff, resDiff]; exact diffGeneric_types _ _ _ h _
+    | _ => simp only [diff, resDiff]; exact diffGeneric_types _ _ _ h _
+  | rcmp c =>
+    cases y with
+    | rcmp e => simp [Obj.pyType] at h
+    | _ => simp only [diff, rcmpDiff, rcmpDiffWith]; exact diffGeneric_types _ _ _ h _
+  | other i n => simp only [diff]; exact diffGeneric_types _ _ _ h _
+
+theorem diff_other_other (t : Tol α) (cd : Bool) (i j : Nat) (n : String) :
+    diff t cd (.other i n : Obj α) (.other j n) = .ok ⟨false, []⟩ := by
+  simp [diff, diffGeneric, membersLoop, Obj.pyType, Obj.oid]
+
+/-! ### symmetry of exact equality -/
+
+theorem decide_eq_comm {β : Type*} [DecidableEq β] (a b : β) : decide (a = b) = decide (b = a) := by
+  by_cases h : a = b
+  · simp [h]
+  · simp [h, Ne.symm h]
+
+theorem dmFlags_exact_symm (cd : Bool) (d e : DM α) :
+    dmFlags (exact : Tol α) cd d e = dmFlags (exact : Tol α) cd e d := by
+  simp only [dmFlags, cellsClose_exact_eq, dataClose_exact_eq, cellsEq_symm d.weights,
+    cellsEq_symm d.matrix.cells, decide_eq_comm d.shape, decide_eq_comm d.criteria,
+    decide_eq_comm d.alternatives, decide_eq_comm d.objectives, decide_eq_comm d.dtypes]
+
+theorem resFlags_exact_symm (r s : Res α) (hr : r.extra.valid = true) (hs : s.extra.valid = true) :
+    resFlags (exact : Tol α) r s = resFlags (exact : Tol α) s r := by
+  simp only [resFlags, arrClose_exact_eq, arrEqual_symm r.values, valClose_exact_symm r.extra s.extra hr hs,
+    decide_eq_comm r.method, decide_eq_comm r.alternatives]
+
+theorem resSame_exact_symm (r s : Res α) (hr : r.valid = true) (hs : s.valid = true) :
+    resSame (exact : Tol α) r s = resSame (exact : Tol α) s r := by
+  simp only [Res.valid, Bool.and_eq_true] at hr hs
+  simp only [resSame, resFlags_exact_symm r s hr.2 hs.2, decide_eq_comm r.kind, decide_eq_comm r.oid]
+
+theorem ranksFlag_exact_symm (as bs : List (String × Res α)) (ha : ∀ p ∈ as, p.2.valid = true)
+    (hb : ∀ p ∈ bs, p.2.valid = true) :
+    ((List.zip as bs).all fun p => decide (p.1.1 = p.2.1) && resSame (exact : Tol α) p.1.2 p.2.2) =
+    ((List.zip bs as).all fun p => decide (p.1.1 = p.2.1) && resSame (exact : Tol α) p.1.2 p.2.2) := by
+  induction as generalizing bs with
+  | nil => cases bs <;> simp
+  | cons a as ih =>
+    cases bs with
+    | nil => simp
+    | cons b bs =>
+      simp only [List.zip_cons_cons, List.all_cons]
+      rw [ih bs (fun p hp => ha p (List.mem_cons_of_mem _ hp)) (fun p hp => hb p (List.mem_cons_of_mem _ hp)),
+        resSame_exact_symm a.2 b.2 (ha a List.mem_cons_self) (hb b List.mem_cons_self),
+        decide_eq_comm a.1]
+
+theorem aequals_symm_exact (x y : Obj α) (hx : x.valid = true) (hy : y.valid = true) :
+    diff (exact : Tol α) true x y = diff (exact : Tol α) true y x := by
+  by_cases hT : x.pyType = y.pyType
+  · cases x with
+    | dm d =>
+      cases y with
+      | dm e =>
+        simp only [diff, dmDiff_dm, dmFlags_exact_symm true d e]
+        by_cases h : d.oid = e.oid
+        · simp [h]
+        · simp [h, Ne.symm h]
+      | res s => exact absurd hT.symm (Res.pyType_ne_dm s)
+      | rcmp e => simp [Obj.pyType] at hT
+      | other j m => simp [Obj.pyType] at hT
+    | res r =>
+      cases y with
+      | dm e => exact absurd hT (Res.pyType_ne_dm r)
+      | res s =>
+        have hk : r.kind = s.kind := (Res.pyType_eq_iff r s).mp hT
+        simp only [Obj.valid, Res.valid, Bool.and_eq_true] at hx hy
+        simp only [diff, resDiff_res, resFlags_exact_symm r s hx.2 hy.2, hk]
+        by_cases h : r.oid = s.oid
+        · simp [h]
+        · simp [h, Ne.symm h]
+      | rcmp e => exact absurd hT (Res.pyType_ne_rcmp r)
+      | other j m => exact absurd hT (Res.pyType_ne_other r m)
+    | rcmp c =>
+      cases y with
+      | dm e => simp [Obj.pyType] at hT
+      | res s => exact absurd hT.symm (Res.pyType_ne_rcmp s)
+      | rcmp e =>
+        simp only [Obj.valid, List.all_eq_true] at hx hy
+        simp only [diff, rcmpDiff_rcmp, ranksFlag_exact_symm c.ranks e.ranks hx hy,
+          decide_eq_comm c.ranks.length]
+        by_cases h : c.oid = e.oid
+        · simp [h]
+        · simp [h, Ne.symm h]
+      | other j m => simp [Obj.pyType] at hT
+    | other i n =>
+      cases y with
+      | dm e => simp [Obj.pyType] at hT
+      | res s => exact absurd hT.symm (Res.pyType_ne_other s n)
+      | rcmp e => simp [Obj.pyType] at hT
+      | other j m =>
+        simp only [Obj.pyType, PyType.other.injEq] at hT
+        subst hT
+        rw [diff_other_other, diff_other_other]
+  · rw [diff_of_types_ne _ _ x y hT, diff_of_types_ne _ _ y x (Ne.symm hT)]
+
+/-! ### a copy is exactly equal -/
+
+theorem dmFlags_exact_copy (cd : Bool) (d e : DM α) (h : ({ d with oid := 0 } : DM α) = { e with oid := 0 })
+    (hf : (Obj.dm d).finite = true) : ∀ p ∈ dmFlags (exact : Tol α) cd d e, p.2 = true := by
+  obtain ⟨o1, sh, al, cr, ob, w, m, dt⟩ := d
+  obtain ⟨o2, sh', al', cr', ob', w', m', dt'⟩ := e
+  simp only [DM.mk.injEq, true_and] at h
+  obtain ⟨rfl, rfl, rfl, rfl, rfl, rfl, rfl⟩ := h
+  simp only [Obj.finite, Bool.and_eq_true] at hf
+  cases cd <;>
+    simp [dmFlags, cellsClose_exact_eq, dataClose_exact_eq, cellsEq_self _ hf.1, cellsEq_self _ hf.2]
+
+theorem resSame_exact_copy (r s : Res α) (h : r.strip = s.strip) (hv : r.valid = true)
+    (hf : r.finite = true) : resSame (exact : Tol α) r s = true := by
+  obtain ⟨o1, k, m, al, v, ex⟩ := r
+  obtain ⟨o2, k', m', al', v', ex'⟩ := s
+  simp only [Res.strip, Res.mk.injEq, true_and] at h
+  obtain ⟨rfl, rfl, rfl, rfl, rfl⟩ := h
+  simp only [Res.valid, Res.finite, Bool.and_eq_true] at hv hf
+  simp [resSame, resFlags, arrClose_exact_eq, arrEqual_self _ hf.1, valClose_exact_self _ hv.2 hf.2]
+
+theorem ranksFlag_exact_copy (as bs : List (String × Res α))
+    (h : as.map (fun p => (p.1, p.2.strip)) = bs.map (fun p => (p.1, p.2.strip)))
+    (hv : ∀ p ∈ as, p.2.valid = true) (hf : ∀ p ∈ as, p.2.finite = true) :
+    (decide (as.length = bs.length) &&
+      (List.zip as bs).all fun p => decide (p.1.1 = p.2.1) && resSame (exact : Tol α) p.1.2 p.2.2) = true := by
+  induction as generalizing bs with
+  | nil => cases bs <;> simp_all
+  | cons a as ih =>
+    cases bs with
+    | nil => simp at h
+    | cons b bs =>
+      simp only [List.map_cons, List.cons.injEq, Prod.mk.injEq] at h
+      obtain ⟨⟨hn, hs⟩, ht⟩ := h
+      have := ih bs ht (fun p hp => hv p (List.mem_cons_of_mem _ hp)) (fun p hp => hf p (List.mem_cons_of_mem _ hp))
+      simp only [Bool.and_eq_true, decide_eq_true_eq] at this
+      simp [this.1, this.2, hn, resSame_exact_copy a.2 b.2 hs (hv a List.mem_cons_self) (hf a List.mem_cons_self)]
+
+/-! ### exact equality implies tolerant equality -/
+
+theorem dmFlags_exact_imp (t : Tol α) (hr : 0 ≤ t.rtol) (ha : 0 ≤ t.atol) (cd : Bool) (d e : DM α)
+    (h : ∀ p ∈ dmFlags (exact : Tol α) true d e, p.2 = true) : ∀ p ∈ dmFlags t cd d e, p.2 = true := by
+  simp only [dmFlags, if_true, List.cons_append, List.nil_append, List.mem_cons, List.not_mem_nil, or_false,
+    forall_eq_or_imp, forall_eq, Bool.and_eq_true, decide_eq_true_eq] at h
+  obtain ⟨hs, hc, hal, ho, hw, hm, hd⟩ := h
+  have hw' := cellsEq_imp_close t hr ha _ _ (by rw [← cellsClose_exact_eq]; exact hw.2)
+  have hm' := dataClose_exact_imp t hr ha _ _ hm.2
+  cases cd <;> simp [dmFlags, hs, hc.2, hal.2, ho.2, hw', hm', hd.2]
+
+theorem resFlags_exact_imp (t : Tol α) (hr : 0 ≤ t.rtol) (ha : 0 ≤ t.atol) (r s : Res α)
+    (h : (resFlags (exact : Tol α) r s).all (·.2) = true) : (resFlags t r s).all (·.2) = true := by
+  simp only [resFlags, List.all_cons, List.all_nil, Bool.and_true, Bool.and_eq_true, decide_eq_true_eq] at h ⊢
+  obtain ⟨hm, hal, hv, he⟩ := h
+  exact ⟨hm, hal, arrEqual_imp_close t hr ha _ _ (by rw [← arrClose_exact_eq]; exact hv),
+    valClose_exact_imp t hr ha _ _ he⟩
+
+theorem resSame_exact_imp (t : Tol α) (hr : 0 ≤ t.rtol) (ha : 0 ≤ t.atol) (r s : Res α)
+    (h : resSame (exact : Tol α) r s = true) : resSame t r s = true := by
+  simp only [resSame, Bool.and_eq_true, Bool.or_eq_true] at h ⊢
+  exact ⟨h.1, h.2.imp id (resFlags_exact_imp t hr ha r s)⟩
+
+theorem ranksFlag_exact_imp (t : Tol α) (hr : 0 ≤ t.rtol) (ha : 0 ≤ t.atol) (as bs : List (String × Res α))
+    (h : ((List.zip as bs).all fun p => decide (p.1.1 = p.2.1) && resSame (exact : Tol α) p.1.2 p.2.2) = true) :
+    ((List.zip as bs).all fun p => decide (p.1.1 = p.2.1) && resSame t p.1.2 p.2.2) = true := by
+  simp only [List.all_eq_true, Bool.and_eq_true] at h ⊢
+  exact fun p hp => ⟨(h p hp).1, resSame_exact_imp t hr ha _ _ (h p hp).2⟩
+
+theorem aequalsOf_ok_true_iff (d : Difference) :
+    aequalsOf (.ok d) = .ok true ↔ d.differentTypes = false ∧ d.members = [] := by
+  obtain ⟨dt, ms⟩ := d
+  cases dt <;> cases ms <;> simp [aequalsOf, Difference.hasDifferences]
+
 end Skc.Diff
